@@ -23,13 +23,14 @@ Definition sep (skip : bool) (e : event) : bytes :=
 Definition starts_number (t : bytes) : bool :=
   match t with c :: _ => is_digit c || (c =? 45) | [] => false end.
 
-(* the number branch: Number(text, 0) and the JSON repair of ".5" / "-.5" *)
+(* the number branch: Number(text, 0) and the JSON repair of ".5" / "-.5"; when the leading zero would make the result
+   longer than the input (7E-3 -> .007 -> 0.007) the original text is written (json.go keeps a copy, Number works in place) *)
 Definition num_text (keepnum : bool) (t : bytes) : bytes :=
   if negb keepnum && starts_number t then
     let u := number0 t in
     match u with
-    | 46 :: _ => 48 :: u
-    | 45 :: 46 :: r => 45 :: 48 :: 46 :: r
+    | 46 :: _ => if Nat.ltb (length t) (S (length u)) then t else 48 :: u
+    | 45 :: 46 :: r => if Nat.ltb (length t) (S (length u)) then t else 45 :: 48 :: 46 :: r
     | _ => u
     end
   else t.
